@@ -174,6 +174,9 @@ func TestSim(t *testing.T) {
 	handle := func(plan *Plan, out *Outcome) bool {
 		if dumpLogs {
 			fmt.Printf("--- run %d seed %d\n%s\n", plan.Run, plan.Seed, strings.Join(out.Log, "\n"))
+			if len(out.Trace) > 0 {
+				fmt.Printf("--- trace run %d: %s\n", plan.Run, strings.Join(out.Trace, " "))
+			}
 		}
 		if out.Harness != "" {
 			res.Harness = append(res.Harness, fmt.Sprintf("run %d: %s", plan.Run, out.Harness))
